@@ -122,11 +122,7 @@ func runC14(c *Ctx) {
 	}
 	recv := "param:" + a.Set.Params[0].Name()
 	urlP := "param:" + a.Set.Params[2].Name()
-	keyName := ""
-	if a.Key != nil {
-		keyName = fnName(a.Key)
-	}
-	wantPath := "call:path/filepath.Join({" + recv + ".root,call:" + keyName + "(" + recv + "," + urlP + ")})"
+	wantPath := "call:path/filepath.Join({" + recv + ".root," + callForm(a.Key, 0, recv, urlP) + "})"
 	c.SeenFn(a.Set.String())
 	if wcall == nil {
 		c.Bad("set/uses-writer", "Set stores the entry through the atomic writer", w.FnPos(a.Set), "Set does not call the temp-file-and-rename writer")
@@ -187,7 +183,7 @@ func runC14(c *Ctx) {
 	c.SeenFn(a.Get.String())
 	grecv := "param:" + a.Get.Params[0].Name()
 	gurl := "param:" + a.Get.Params[2].Name()
-	gpath := "call:path/filepath.Join({" + grecv + ".root,call:" + keyName + "(" + grecv + "," + gurl + ")})"
+	gpath := "call:path/filepath.Join({" + grecv + ".root," + callForm(a.Key, 0, grecv, gurl) + "})"
 	var reads []ssa.CallInstruction
 	for _, f := range append([]*ssa.Function{a.Get}, calleesInPkg(w, a.Get, "verifier/crl")...) {
 		for _, ci := range allCalls(f) {
@@ -444,10 +440,6 @@ func runC15(c *Ctx) {
 		return
 	}
 	c14Key(c, a)
-	keyName := ""
-	if a.Key != nil {
-		keyName = fnName(a.Key)
-	}
 	Get, Set := a.Get, a.Set
 	c.SeenFn(Get.String())
 	c.SeenFn(Set.String())
@@ -612,7 +604,7 @@ func runC15(c *Ctx) {
 	for _, fn := range []*ssa.Function{Get, Set} {
 		recv := "param:" + fn.Params[0].Name()
 		urlP := "param:" + fn.Params[2].Name()
-		want := "call:path/filepath.Join({" + recv + ".root,call:" + keyName + "(" + recv + "," + urlP + ")})"
+		want := "call:path/filepath.Join({" + recv + ".root," + callForm(a.Key, 0, recv, urlP) + "})"
 		ok := true
 		var bad []string
 		n := 0
